@@ -579,7 +579,36 @@ func gValidate(p *Program) (bool, string) {
 			return len(vc.Call.Args) == 3 && len(call.Call.Args) == 3 &&
 				sameValueLoose(vc.Call.Args[1], call.Call.Args[1]) && sameValueLoose(vc.Call.Args[2], call.Call.Args[2])
 		}) {
-			return false, "call to mutate at " + p.Pos(call.Pos()) + " is not dominated by a checked ValidateMutation on the same mutator and value"
+			// the validation may sit in a private helper that hands back the validated value:
+			// the helper cannot succeed without a successful ValidateMutation (gateWrappers), the
+			// call to it is checked and dominates, and mutate gets the value it returned
+			viaWrapper := false
+			region := map[*ssa.Function]bool{}
+			for _, g := range p.srcFuncs {
+				if pkgOf(g) == "updates" && g.Parent() == nil {
+					region[g] = true
+				}
+			}
+			for _, w := range gateWrappers(val, region) {
+				if w == val {
+					continue
+				}
+				if dominatedByCheckedCall(s.caller, call, w, func(wc *ssa.Call) bool {
+					if len(call.Call.Args) != 3 {
+						return false
+					}
+					v := call.Call.Args[2]
+					if ex, ok := v.(*ssa.Extract); ok && ex.Tuple == ssa.Value(wc) && ex.Index == 0 {
+						return true
+					}
+					return false
+				}) {
+					viaWrapper = true
+				}
+			}
+			if !viaWrapper {
+				return false, "call to mutate at " + p.Pos(call.Pos()) + " is not dominated by a checked ValidateMutation on the same mutator and value"
+			}
 		}
 	}
 	// validator half
